@@ -504,6 +504,16 @@ pub fn run(cfg: &Cfg, trim: bool) -> (&'static str, Report, String, String) {
             pair(r, trim, &mhs[i], n);
         }
     }));
+    // every lead-byte class as haystack text and as char / str needle
+    let mut la: Vec<&str> = LEADS.to_vec();
+    la.extend(LEADS_HI3);
+    let lhs = strings_upto(&la, cfg.by(1, 2, 3));
+    let lns = strings_upto(&la, 1);
+    rep.merge(par_for(cfg, lhs.len(), |i, r| {
+        for n in &lns {
+            pair(r, trim, &lhs[i], n);
+        }
+    }));
     // seeded random long inputs over 2-3 symbol alphabets
     let nrand = cfg.by(4, 3000, 20000);
     rep.merge(par_for(cfg, nrand, |i, r| {
